@@ -237,6 +237,40 @@ def run_subjects(chk, prog, tier, rule_id="TABLE=EXACT", only=None, floor=14):
     return total_rows, total_real, total_grid
 
 
+def rule_intersection_point(chk, prog):
+    """The coordinates returned with DO_INTERSECT lie on both supporting lines -- as an identity of rational functions."""
+    from ..microai.poly import num_den, r_sub, r_mul, to_poly
+    r = chk.rule("INTERSECTION-POINT", "segmentIntersectPoint / rayIntersectPoint, symbolic end points: on every path that reports an "
+                 "intersection the returned (x, y) satisfies cross(a2 - a1, P - a1) = 0 and cross(b2 - b1, P - b1) = 0 identically (the "
+                 "point is the intersection of the two supporting lines; rounding aside)", floor=2)
+    a, b, c, d = (sym_point(n) for n in "abcd")
+    for q in ("Avoid::segmentIntersectPoint", "Avoid::rayIntersectPoint"):
+        fn = prog.fn(q)
+        try:
+            rows = interpret_tree(prog, fn, [a, b, c, d, Box(), Box()], lattice=True,
+                                  post=lambda rv, args: (rv, args[4].get(), args[5].get()), grid=(names("a", "b", "c", "d"), 3))
+        except (Unsupported, PathLimit) as e:
+            raise AnalysisBroken("%s is outside the interpreter's subset: %s" % (q, e))
+        n_hit = 0
+        bad = None
+        V = lambda nm: Poly.var(nm)
+        for val, descr, out in rows:
+            if out[0] != "ret" or out[1][0] != 1:
+                continue
+            n_hit += 1
+            x, y = out[1][1], out[1][2]
+            for (p1, p2) in (("a", "b"), ("c", "d")):
+                ux, uy = r_sub(V(p2 + ".x"), V(p1 + ".x")), r_sub(V(p2 + ".y"), V(p1 + ".y"))
+                cr = r_sub(r_mul(ux, r_sub(y, V(p1 + ".y"))), r_mul(uy, r_sub(x, V(p1 + ".x"))))
+                num, den = num_den(cr)
+                if to_poly(num) != to_poly(Fraction(0)):
+                    bad = bad or "a path returns the point (%s, %s), which is not on the line through %s and %s (residual %s)" % (x, y, p1, p2, num)
+        r.count(max(1, n_hit))
+        if n_hit == 0:
+            bad = bad or "no path reports an intersection"
+        (r.bad if bad else r.ok)(q.split("::")[-1], fn.where(), bad or "%d intersecting paths" % n_hit)
+
+
 def run(chk):
     prog = chk.load(None)
     tier = chk.tier
@@ -269,6 +303,7 @@ def run(chk):
             r0.bad(fq, fn.where(), "default tolerance `%s` is %s, not 0.0" % (pname, dv))
 
     total_rows, total_real, total_grid = run_subjects(chk, prog, tier)
+    rule_intersection_point(chk, prog)
     chk.extra["decision_tree_paths"] = total_rows
     chk.extra["realisable_sign_classes"] = total_real
     chk.extra["grid_tuples_classified"] = total_grid
